@@ -293,6 +293,28 @@ def make_oracle(name):
                 i = next((k for k, (a, b) in enumerate(zip(packed, ref)) if a != b), min(len(packed), len(ref)))
                 _bad("msg:%s:pack!=ref" % name, "pack(%s) differs from the reference encoding at byte %d (len %d vs %d): ...%s vs ...%s" % (
                     name, i, len(packed), len(ref), packed[max(0, i - 4):i + 12].hex(), ref[max(0, i - 4):i + 12].hex()))
+            # the same field objects packed again after the caller changed one of them (a header whose timestamp is rolled
+            # between two announcements): the bytes describe the fields as they are now
+            import copy
+            m2, obj = None, None
+            if name == "headers" and model["headers"]:
+                m2 = copy.deepcopy(model)
+                m2["headers"][0][0]["time"] = (m2["headers"][0][0]["time"] + 1) & 0xFFFFFFFF
+                obj, new = kwargs["headers"][0][0], m2["headers"][0][0]["time"]
+            elif name == "merkleblock":
+                m2 = copy.deepcopy(model)
+                m2["header"]["time"] = (m2["header"]["time"] + 1) & 0xFFFFFFFF
+                obj, new = kwargs["header"], m2["header"]["time"]
+            elif name == "block":
+                m2 = copy.deepcopy(model)
+                m2["block"]["header"]["time"] = (m2["block"]["header"]["time"] + 1) & 0xFFFFFFFF
+                obj, new = kwargs["block"], m2["block"]["header"]["time"]
+            if m2 is not None:
+                obj.timestamp = new
+                again = net.message.pack(name, **kwargs)
+                if again != enc(m2):
+                    _bad("msg:%s:repack-after-edit!=ref" % name, "pack(%s) after the header's timestamp was assigned %d does not encode the "
+                         "fields as they are now (%s)" % (name, new, "it repeats the earlier bytes" if again == packed else "other bytes"))
 
         def half_parse_ref():
             _check_parsed(name, net.message.parse(name, ref), model, extra, net, "reference bytes")
